@@ -240,6 +240,16 @@ func getSupportedExtensionByName(extensionName string) (sshExtensionPair, error)
 	return sshExtensionPair{}, fmt.Errorf("unsupported extension: %s", extensionName)
 }
 
+// extensionEnabled reports whether the named extension is among those the servers advertise.
+func extensionEnabled(name string) bool {
+	for _, ext := range sftpExtensions {
+		if ext.Name == name {
+			return true
+		}
+	}
+	return false
+}
+
 // SetSFTPExtensions allows to customize the supported server extensions.
 // See the variable supportedSFTPExtensions for supported extensions.
 // This method accepts a slice of sshExtensionPair names for example 'hardlink@openssh.com'.
